@@ -205,7 +205,17 @@ func checkC03(sc *Scenario) *CheckResult {
 		res.class("passthrough_noncompliant_backend")
 		return res
 	}
+	// A backend that answers with a bare 2xx status and a body that is no message of its own protocol
+	// (e.g. 204 with nothing) is not one of the compliant behaviours the property quantifies over; on
+	// a path that does not decode payloads (same codec on both legs) the transcoder cannot know, and
+	// the undecodable payload is the backend's doing (same rule as C09: garbage is never required to
+	// become valid, only never to be reported decoded). Framing and status rules still apply.
+	garbageIn := view != nil && b.Kind == "http_status" && b.HTTPStatus/100 == 2 && view.Codec == c.Codec
 	for _, p := range cv.Problems {
+		if garbageIn && strings.HasPrefix(p, "body does not decode") {
+			res.class("undecodable_backend_payload_forwarded")
+			continue
+		}
 		res.violate("invalid_response", sig, "response is not valid for a %s client: %s", c.Form, p)
 	}
 	if cv.Incomplete != "" {
